@@ -8,6 +8,7 @@ mod c02;
 mod c04;
 mod c05;
 mod c06;
+mod c08;
 mod c09;
 mod c10;
 mod c12;
@@ -61,6 +62,7 @@ fn main() {
         "c05" => c05::run(opts),
         "c05-worker" => c05::worker(&args[1..]),
         "c06" => c06::run(opts),
+        "c08" => c08::run(opts),
         "c09" => c09::run(opts),
         "c10" => c10::run(opts),
         "c12" => c12::run(opts),
